@@ -1935,7 +1935,14 @@ class Interp:
         # literal iteration space: exact unrolling (the result is used as an ordered sequence)
         if not any(g.is_async for g in node.generators):
             as_list = ast.copy_location(ast.ListComp(elt=node.elt, generators=node.generators), node)
+            n_eff = len(st.effects)
             for v, s in self.ev_ListComp(as_list, st):
+                if isinstance(node, ast.GeneratorExp) and len(s.effects) != n_eff:
+                    # a generator expression is lazy: its element expressions (here with side
+                    # effects - reads, writes) run only as far as the consumer pulls.  Evaluating
+                    # all of them at once over-counts those effects.
+                    note_gap('lazy', 'generator expression with side effects evaluated eagerly',
+                             self.cur.loc(node))
                 if isinstance(v, Tup):
                     yield Tup(v.items, 'tuple' if isinstance(node, ast.GeneratorExp) else 'set'), s
                 else:
